@@ -2,6 +2,11 @@
 
 package quickfix
 
+import (
+	"bytes"
+	"time"
+)
+
 func init() {
 	verifRegister("C04_detect", VerifHarness_C04_detect)
 	verifRegister("C04_recover", VerifHarness_C04_recover)
@@ -320,4 +325,54 @@ func VerifHarness_C04_chunk_step() {
 		verifAssert(nreq == 0, "chunk-step-no-request-inside-the-chunk")
 	}
 	verifObserve("now", now)
+}
+
+func init() { verifRegister("C04_wire", VerifHarness_C04_wire) }
+
+// C04_wire: gap detection and recovery driven through Incoming, i.e. from bytes as the connection delivers them (the
+// other C04 harnesses hand freshly built Message values to the state machine): one or two early application messages
+// are kept while the missing ones arrive as replays or a gap fill; everything is delivered once, in order, and the
+// session is back to normal expecting one past the highest message received.
+func VerifHarness_C04_wire() {
+	r := verifNewSession(ndBool("initiator"), BeginStringFIX42)
+	r.withTimers()
+	T := ndInt("T", 20, 22)
+	r.setCounters(T, 5)
+	r.verifLoggedOnState(stInSession, T)
+	feed := func(m *Message) {
+		r.s.Incoming(r.s, fixIn{bytes: bytes.NewBuffer(m.build()), receiveTime: time.Now()})
+		r.pump()
+	}
+	gap := verifConc(ndInt("gap", 1, 2))
+	early := verifConc(ndInt("early-messages", 1, 2))
+	for i := 0; i < early; i++ {
+		feed(r.appMessage(T + gap + i))
+	}
+	ws := r.drain()
+	verifAssert(verifCountType(ws, "2") == 1, "wire-exactly-one-resendrequest")
+	verifAssert(len(r.app.fromApp) == 0, "wire-early-messages-not-delivered-yet")
+	// the missing numbers arrive
+	want := early
+	if ndBool("missing-arrive-as-gap-fill") {
+		verifCase("gap-fill")
+		g := r.inbound("4", T)
+		g.Body.SetInt(tagNewSeqNo, T+gap)
+		g.Body.SetBool(tagGapFillFlag, true)
+		verifPossDup(g)
+		feed(g)
+	} else {
+		verifCase("replays")
+		want = early + gap
+		for q := T; q < T+gap; q++ {
+			m := r.appMessage(q)
+			verifPossDup(m)
+			feed(m)
+		}
+	}
+	ws = r.drain()
+	verifAssert(verifCountType(ws, "2") == 0, "wire-no-further-resendrequest")
+	verifAssert(len(r.app.fromApp) == want, "wire-every-kept-message-delivered-once")
+	r.checkDeliveries("wire")
+	verifAssert(r.st.NextTargetMsgSeqNum() == T+gap+early, "wire-expects-one-past-highest-received")
+	verifAssert(verifStateKind(r.s.State) == stInSession, "wire-returns-to-normal-when-complete")
 }
